@@ -51,8 +51,8 @@ Record red := mkRed { r_orc : Z; r_dst : Z; r_time : Z }.
 
 (* an object oracles must sign: oracle set (nonce, creation height), batch (id, block), outgoing
    bridge call (nonce, block height).  Confirms are stored under (object, oracle address) and
-   carry the external address. *)
-Record obj := mkObj { ob_nonce : Z; ob_height : Z; ob_conf : list (Z * Z) }.
+   carry the bridger and the external address of the message. *)
+Record obj := mkObj { ob_nonce : Z; ob_height : Z; ob_conf : list (Z * Z * Z) }.   (* confirm: oracle address, bridger at confirm time, external address *)
 
 Inductive kind := KSet | KBatch | KCall.
 
@@ -440,10 +440,10 @@ Definition set_params (s : state) (p : params) : res :=
 
 (* ---------------- confirms ---------------- *)
 Definition find_obj (n : Z) (l : list obj) : option obj := find (fun x => ob_nonce x =? n) l.
-Definition has_conf_addr (a : Z) (x : obj) : bool := existsb (fun c => fst c =? a) (ob_conf x).
+Definition has_conf_addr (a : Z) (x : obj) : bool := existsb (fun c => fst (fst c) =? a) (ob_conf x).
 Definition has_conf_ext (e : Z) (x : obj) : bool := existsb (fun c => snd c =? e) (ob_conf x).
-Definition add_conf (n a e : Z) (l : list obj) : list obj :=
-  map (fun x => if ob_nonce x =? n then mkObj (ob_nonce x) (ob_height x) (ob_conf x ++ [(a, e)]) else x) l.
+Definition add_conf (n a b e : Z) (l : list obj) : list obj :=
+  map (fun x => if ob_nonce x =? n then mkObj (ob_nonce x) (ob_height x) (ob_conf x ++ [(a, b, e)]) else x) l.
 
 Definition objs_of (s : state) (k : kind) : list obj :=
   match k with KSet => sets s | KBatch => batches s | KCall => calls s end.
@@ -471,7 +471,7 @@ Definition confirm (s : state) (k : kind) (n b e : Z) (sig_ok : bool) : res :=
         else if negb (o_bridger r =? b) then Err e_invalid
         else if negb sig_ok then Err e_invalid
         else if has_conf_addr a x then Err e_invalid
-        else Ok (set_objs s k (add_conf n a e (objs_of s k)))
+        else Ok (set_objs s k (add_conf n a b e (objs_of s k)))
       end
     end
   end.
@@ -494,6 +494,42 @@ Definition add_call (s : state) : res :=
 
 Definition del_call (s : state) (n : Z) : res :=
   Ok (set_objs s KCall (filter (fun x => negb (ob_nonce x =? n)) (calls s))).
+
+(* OutgoingTxBatchExecuted (an observed SendToExternalClaim for batch id): older batches of the token are
+   cancelled, the executed one is deleted together with its confirms; younger batches stay as they are *)
+Definition exec_batch (s : state) (id : Z) : res :=
+  if negb (existsb (fun x => ob_nonce x =? id) (batches s)) then Err e_invalid
+  else Ok (set_objs s KBatch (filter (fun x => id <? ob_nonce x) (batches s))).
+
+(* ExportGenesis -> empty module store -> InitGenesis (keeper/genesis.go).  Exported: params, the oracle
+   records ([export_all_oracles]: every record / only the online ones, re-read from ExportGenesis on every run),
+   proposal list, oracle sets and batches with their confirms, the two slash cursors 0x28 / 0x30.  Import writes
+   each record and rebuilds both indexes from it, recomputes LastTotalPower, keeps a confirm only if some imported
+   oracle currently has the confirm's bridger (and files it under that oracle), sets the latest set nonce to the
+   largest one.  Not exported: outgoing bridge calls, their confirms and cursor, LastOracleSlashBlockHeight. *)
+Definition exported (s : state) : list oracle := if export_all_oracles then all_recs s else online_recs s.
+
+Definition import_conf (ex : list oracle) (x : obj) : obj :=
+  mkObj (ob_nonce x) (ob_height x)
+    (flat_map (fun c => match find (fun r => o_bridger r =? snd (fst c)) ex with
+                        | Some r => [(o_addr r, snd (fst c), snd c)]
+                        | None => []
+                        end) (ob_conf x)).
+
+Definition export_import (s : state) : res :=
+  let ex := exported s in
+  let s1 := mkState (height s) (now s) (ubtime s) (vals s) (prm s) (proposal s)
+              (map o_addr ex)
+              (fold_left (fun f r => upd f (o_addr r) (Some r)) ex (fun _ => None))
+              (fold_left (fun f r => upd f (o_bridger r) (Some (o_addr r))) ex (fun _ => None))
+              (fold_left (fun f r => upd f (o_ext r) (Some (o_addr r))) ex (fun _ => None))
+              (total_power s) (deleg s) (ubds s) (reds s) (bal_o s) (bal_d s)
+              (map (import_conf ex) (sets s))
+              (fold_left (fun m x => Z.max m (ob_nonce x)) (sets s) 0)
+              (slashed_set s) 0
+              (map (import_conf ex) (batches s)) (slashed_batch_block s)
+              [] 0 (next_call s) (burned s) (gov_und s) in
+  Ok (refresh_power s1).
 
 (* staking Keeper.Slash at the current height (no unbonding entries / redelegations are touched): the validator
    loses min(amount, Tokens) tokens, its shares stay; amount = trunc(power * 10^20 * fraction) *)
@@ -655,6 +691,8 @@ Inductive op :=
 | Fund (a amt : Z)
 | SlashVal (v amount : Z)
 | EnvVal (v tok shr : Z)
+| ExecBatch (id : Z)
+| ExportImport
 | EndBlock (t_end t_next : Z) (pd : bool).
 
 Definition step (s : state) (o : op) : res :=
@@ -675,6 +713,8 @@ Definition step (s : state) (o : op) : res :=
   | Fund a amt => fund s a amt
   | SlashVal v amount => slash_val s v amount
   | EnvVal v tok shr => env_val s v tok shr
+  | ExecBatch id => exec_batch s id
+  | ExportImport => export_import s
   | EndBlock t1 t2 pd => end_block s t1 t2 pd
   end.
 
